@@ -708,6 +708,19 @@ fn go_constant_folding_would_fail(
     let ImmExpr::ImmPrim { value: lhs, .. } = lhs else {
         return (false, false);
     };
+    // Go evaluates a constant expression of two float literals exactly, from the decimals as
+    // written (`0.1 + 0.2` is exactly 0.3); the source means the operation on the two operand
+    // values (0.30000000000000004).
+    let is_float = |p: &Prim| matches!(p, Prim::Float32 { .. } | Prim::Float64 { .. });
+    if is_float(lhs)
+        && is_float(rhs)
+        && matches!(
+            op,
+            BinaryOp::Add | BinaryOp::Sub | BinaryOp::Mul | BinaryOp::Div
+        )
+    {
+        return (true, false);
+    }
     let (Some((a, min, max)), Some((b, _, _))) =
         (prim_integer_value(lhs), prim_integer_value(rhs))
     else {
